@@ -177,13 +177,13 @@ def run(ctx):
         run_cfg(ctx, rp, "s2", h1, ["fn", "late", "setval"], ["val", "drop"], cb=h1, bl=h1, copies=1, handles=2, must=["BeginCb"])
         # two handle threads: drop of the last handle against the resolver's chain walk / tracer release
         kinds = [ALL_KINDS[ctx.seed % 4]]
-        run_cfg(ctx, rp, "c1", h2, ["fn"], kinds, co=["h1"], bl=["h2"], copies=1, handles=1, must=["Copy"])
+        run_cfg(ctx, rp_asan, "c1", h2, ["fn"], kinds, co=["h1"], bl=["h2"], copies=1, handles=1, must=["Copy"], env=asan_env)
         run_cfg(ctx, rp, "c2", h2, ["retfut", "async"], ["val"], co=["h2"], po=["h1"], copies=1, handles=1)
         run_cfg(ctx, rp, "c3", h2, ["fn"], ["val"], cb=["h1"], bl=["h2"], copies=2, handles=1)
         run_cfg(ctx, rp, "c4", h2, [modes[-1]], ["val"], co=["h1"], bl=["h2"], po=["h2"], copies=2, handles=2, max_paths=1500)
-        # sanitized replays (no weak_ptr probe): a touch of the state after the last reference is gone aborts the replayer
+        # sanitized replays (this one and c1; no weak_ptr probe): a touch of the state after the last reference is gone
+        # aborts the replayer
         run_cfg(ctx, rp_asan, "a1", h1, ["fn", "late", "retfut", "async"], ["val", "dtor"], co=h1, cb=h1, copies=1, handles=1, env=asan_env)
-        run_cfg(ctx, rp_asan, "a2", h2, ["fn"], ["val"], co=["h1"], bl=["h2"], copies=1, handles=1, env=asan_env)
     else:
         # (the largest graphs are replayed by an edge cover capped at max_paths; the others completely)
         run_cfg(ctx, rp, "s1", h1, modes, ALL_KINDS, co=h1, bl=h1, cb=h1, po=h1, copies=1, handles=2, env=env, max_paths=12000,
